@@ -1,0 +1,91 @@
+//go:build verif
+
+// Package vhook provides verification hook points.
+// With the "verif" build tag the points call handlers installed by a verification harness.
+package vhook
+
+import (
+	"strconv"
+	"sync/atomic"
+)
+
+// Handler receives a point name and an optional identifier.
+type Handler func(point, id string)
+
+// WriteFaultFn decides about a content file write: if handled is true the
+// real write is skipped and (n, err) is returned to the caller; when n > 0 the
+// first n bytes are really written before err is returned.
+type WriteFaultFn func(path string, p []byte) (n int, err error, handled bool)
+
+// DiskFreeFn overrides the free space reported for a root directory.
+type DiskFreeFn func(root string) (free uint64, ok bool)
+
+var (
+	handler    atomic.Pointer[Handler]
+	writeFault atomic.Pointer[WriteFaultFn]
+	diskFree   atomic.Pointer[DiskFreeFn]
+)
+
+// SetHandler installs (or removes with nil) the point handler.
+func SetHandler(h Handler) {
+	if h == nil {
+		handler.Store(nil)
+		return
+	}
+	handler.Store(&h)
+}
+
+// SetWriteFault installs (or removes with nil) the write fault function.
+func SetWriteFault(f WriteFaultFn) {
+	if f == nil {
+		writeFault.Store(nil)
+		return
+	}
+	writeFault.Store(&f)
+}
+
+// SetDiskFree installs (or removes with nil) the free space override.
+func SetDiskFree(f DiskFreeFn) {
+	if f == nil {
+		diskFree.Store(nil)
+		return
+	}
+	diskFree.Store(&f)
+}
+
+// At marks a named program point.
+func At(point string) {
+	if h := handler.Load(); h != nil {
+		(*h)(point, "")
+	}
+}
+
+// AtID marks a named program point with an identifier.
+func AtID(point, id string) {
+	if h := handler.Load(); h != nil {
+		(*h)(point, id)
+	}
+}
+
+// AtSeq marks a named program point with a sequence number.
+func AtSeq(point string, seq uint64) {
+	if h := handler.Load(); h != nil {
+		(*h)(point, strconv.FormatUint(seq, 10))
+	}
+}
+
+// WriteFault consults the write fault function.
+func WriteFault(path string, p []byte) (n int, err error, handled bool) {
+	if f := writeFault.Load(); f != nil {
+		return (*f)(path, p)
+	}
+	return 0, nil, false
+}
+
+// DiskFree consults the free space override.
+func DiskFree(root string) (uint64, bool) {
+	if f := diskFree.Load(); f != nil {
+		return (*f)(root)
+	}
+	return 0, false
+}
